@@ -75,8 +75,16 @@ int main() {
             o.put(chunk);
             if (only_chunk) return;
         };
-        if (mode == 2) {
-            const i64 ttl = in.next();
+        if (mode == 2 || mode == 4) {
+            i64 ttl = in.next();
+            if (mode == 4) {
+                // the same chunk is stored twice, the clock moving in between (sub-second steps included): the lifetimes read
+                // are those of the second store
+                const i64 dt_ms = in.next();
+                (void)node.store_chunk(cid, en::ChunkData{1, 2, 3, 4}, std::chrono::seconds(ttl));
+                hv::g_now_ns += dt_ms * 1'000'000LL;
+                ttl = in.next();
+            }
             const auto manifest = node.store_chunk(cid, en::ChunkData{1, 2, 3, 4}, std::chrono::seconds(ttl));
             read_lifetimes(out, true);
             out.put(std::chrono::duration_cast<std::chrono::seconds>(manifest.expires_at - std::chrono::system_clock::now()).count());
